@@ -251,6 +251,7 @@ func evalRejectUnwatched(c RejectCase) (info caseInfo, fail *vlib.Failure) {
 	}
 
 	// ---- the exported decoder on its own (no checksum at this level)
+	var directTypes []SegState // what the implementation's decoder made of the bytes
 	if c.Path == "mem" {
 		dr, f := decodeDirect(x)
 		if f != nil {
@@ -267,6 +268,12 @@ func evalRejectUnwatched(c RejectCase) (info caseInfo, fail *vlib.Failure) {
 		if dr.Err != "" && v.Struct == nil && v.BlobErr == nil && !v.NonCanon {
 			return info, vlib.Failf("valid-rejected@ReadFrom", "ReadFrom rejects a well-formed body: %s", dr.Err)
 		}
+		if dr.Err == "" && len(x) >= 4 && dr.N == int64(len(x)-4) && v.Struct != nil {
+			// (a decoder that stops early leaves the rest to the loader's length check; one that
+			// claims to have consumed a malformed body to its end has misread it)
+			return info, vlib.Failf("decoded-malformed@ReadFrom", "ReadFrom decodes all %d bytes of a body that is not well-formed (%v) into %d segments; damage: %s", len(x)-4, v.Struct, len(dr.State), describeMut(c.Mut))
+		}
+		directTypes = dr.State
 	}
 
 	// ---- directory layout
@@ -372,8 +379,13 @@ func evalRejectUnwatched(c RejectCase) (info caseInfo, fail *vlib.Failure) {
 			d = c.World.memDirOf(snaps)
 		} else {
 			d = &memDir{snaps: snaps, anySeg: []byte("stub")}
+			// every type named by any file is loadable here, whether the harness's or the
+			// implementation's decoder is asked: only the loader's own checks can reject a file
 			for _, cd := range cands {
 				tvs = append(tvs, typeVers(cd.v.Entries)...)
+			}
+			for _, st := range directTypes {
+				tvs = append(tvs, typeVer{st.Type, st.Version})
 			}
 		}
 		lr, f := openMem(d, tvs)
